@@ -59,12 +59,12 @@ def _worker(idx):
                     continue
                 r["model"] = extract_model(o)
                 from . import replay
-                if "memo" in o.name.split("/", 1)[-1]:
+                if "memo" in o.name.split("/", 1)[-1] or "operand-variable-set-untouched" in o.name or "/frame:" in o.name:
                     r["scenario"] = {"kind": "history_battery"}
                 elif "regex-literal" in o.name:
                     r["scenario"] = {"kind": "name_battery"}
                 else:
-                    r["scenario"] = replay.build_scenario(o.res.interp, o.res, o.verdict.model) if getattr(o, "res", None) \
+                    r["scenario"] = replay.build_scenario(o.res.interp, o.res, o.verdict.model, o.name) if getattr(o, "res", None) \
                         else getattr(o, "scenario", None)
             if o.verdict is not None and o.verdict.status == "unknown":
                 r["reason"] = o.verdict.reason
